@@ -4,6 +4,7 @@ import (
 	"fmt"
 	"go/types"
 	"sort"
+	"strings"
 
 	"golang.org/x/tools/go/ssa"
 )
@@ -13,12 +14,36 @@ type lazyDflt struct {
 	epoch int
 }
 
+// heap classes: maps of in-repo struct types, of foreign (dependency) named
+// types, and of plain data (slices, maps, pointees of basic type) are forgotten
+// separately.
+const (
+	clsRepo = iota
+	clsForeign
+	clsData
+	nClasses
+)
+
+const repoModPath = "github.com/la5nta/wl2k-go"
+
+func heapClass(key string) int {
+	switch {
+	case strings.HasPrefix(key, "map:"), strings.HasPrefix(key, "[]"), strings.HasPrefix(key, "*"):
+		return clsData
+	case strings.Contains(key, repoModPath):
+		return clsRepo
+	case strings.Contains(key, "."):
+		return clsForeign
+	}
+	return clsData
+}
+
 // State is one symbolic machine state at a program point.
 type State struct {
 	pc     *Term
 	locals map[*ssa.Alloc]*Value
 	heap   map[string]*Term // key: rootTypeKey|compIndex
-	dflt   []lazyDflt       // how to materialise heap maps not yet in heap
+	dflt   [nClasses][]lazyDflt // how to materialise heap maps not yet in heap
 	ghost  map[string]*Value
 	armed  map[*ssa.Defer]*Term // defer -> armed condition
 	dargs  map[*ssa.Defer][]*Value
@@ -30,7 +55,7 @@ func (ex *Exec) newState() *State {
 		pc:     ex.tb.True,
 		locals: map[*ssa.Alloc]*Value{},
 		heap:   map[string]*Term{},
-		dflt:   []lazyDflt{{cond: ex.tb.True, epoch: 0}},
+		dflt:   [nClasses][]lazyDflt{{{cond: ex.tb.True, epoch: 0}}, {{cond: ex.tb.True, epoch: 0}}, {{cond: ex.tb.True, epoch: 0}}},
 		ghost:  map[string]*Value{},
 		armed:  map[*ssa.Defer]*Term{},
 		dargs:  map[*ssa.Defer][]*Value{},
@@ -42,7 +67,7 @@ func (s *State) clone() *State {
 	n := &State{pc: s.pc,
 		locals: make(map[*ssa.Alloc]*Value, len(s.locals)),
 		heap:   make(map[string]*Term, len(s.heap)),
-		dflt:   append([]lazyDflt(nil), s.dflt...),
+		dflt:   cloneDflt(s.dflt),
 		ghost:  make(map[string]*Value, len(s.ghost)),
 		armed:  make(map[*ssa.Defer]*Term, len(s.armed)),
 		dargs:  make(map[*ssa.Defer][]*Value, len(s.dargs)),
@@ -69,6 +94,14 @@ func (s *State) clone() *State {
 	return n
 }
 
+func cloneDflt(d [nClasses][]lazyDflt) [nClasses][]lazyDflt {
+	var out [nClasses][]lazyDflt
+	for i := range d {
+		out[i] = append([]lazyDflt(nil), d[i]...)
+	}
+	return out
+}
+
 func (ex *Exec) assume(st *State, c *Term) { st.pc = ex.tb.And(st.pc, c) }
 
 // heapMap returns the SMT array (ref -> component) for root type key and component.
@@ -79,17 +112,7 @@ func (ex *Exec) heapMap(st *State, rootKey string, comp int, sort Sort) *Term {
 	}
 	ms := ex.L.liftSort(sort)
 	ex.heapSorts[k] = ms
-	var t *Term
-	for i := len(st.dflt) - 1; i >= 0; i-- {
-		c := ex.tb.Const(fmt.Sprintf("H%d$%s", st.dflt[i].epoch, k), ms)
-		if t == nil {
-			t = c
-		} else {
-			t = ex.tb.Ite(st.dflt[i].cond, c, t)
-		}
-	}
-	st.heap[k] = t
-	return t
+	return ex.heapByKey(st, k)
 }
 
 func (ex *Exec) setHeapMap(st *State, rootKey string, comp int, t *Term) {
@@ -100,8 +123,21 @@ func (ex *Exec) setHeapMap(st *State, rootKey string, comp int, t *Term) {
 func (ex *Exec) havocAllHeap(st *State) {
 	ex.epoch++
 	st.heap = map[string]*Term{}
-	st.dflt = []lazyDflt{{cond: ex.tb.True, epoch: ex.epoch}}
+	for c := 0; c < nClasses; c++ {
+		st.dflt[c] = []lazyDflt{{cond: ex.tb.True, epoch: ex.epoch}}
+	}
 	ex.allocFrontierBump(st)
+}
+
+// havocClass forgets every heap map of one class.
+func (ex *Exec) havocClass(st *State, cls int) {
+	ex.epoch++
+	for k := range st.heap {
+		if heapClass(k) == cls {
+			delete(st.heap, k)
+		}
+	}
+	st.dflt[cls] = []lazyDflt{{cond: ex.tb.True, epoch: ex.epoch}}
 }
 
 // havocHeapKeys forgets the listed heap maps only.
@@ -158,17 +194,22 @@ func (ex *Exec) merge(states []*State) *State {
 	}
 	// heap
 	hkeys := map[string]bool{}
-	sameDflt := true
+	var sameDflt [nClasses]bool
+	for c := 0; c < nClasses; c++ {
+		sameDflt[c] = true
+	}
 	for _, s := range states {
 		for k := range s.heap {
 			hkeys[k] = true
 		}
-		if len(s.dflt) != len(states[0].dflt) {
-			sameDflt = false
-		} else {
-			for i := range s.dflt {
-				if s.dflt[i] != states[0].dflt[i] {
-					sameDflt = false
+		for c := 0; c < nClasses; c++ {
+			if len(s.dflt[c]) != len(states[0].dflt[c]) {
+				sameDflt[c] = false
+			} else {
+				for i := range s.dflt[c] {
+					if s.dflt[c][i] != states[0].dflt[c][i] {
+						sameDflt[c] = false
+					}
 				}
 			}
 		}
@@ -190,13 +231,15 @@ func (ex *Exec) merge(states []*State) *State {
 		}
 		out.heap[k] = cur
 	}
-	if sameDflt {
-		out.dflt = append([]lazyDflt(nil), states[0].dflt...)
-	} else {
-		out.dflt = nil
-		for _, s := range states {
-			for _, d := range s.dflt {
-				out.dflt = append(out.dflt, lazyDflt{cond: tb.And(s.pc, d.cond), epoch: d.epoch})
+	for c := 0; c < nClasses; c++ {
+		if sameDflt[c] {
+			out.dflt[c] = append([]lazyDflt(nil), states[0].dflt[c]...)
+		} else {
+			out.dflt[c] = nil
+			for _, s := range states {
+				for _, d := range s.dflt[c] {
+					out.dflt[c] = append(out.dflt[c], lazyDflt{cond: tb.And(s.pc, d.cond), epoch: d.epoch})
+				}
 			}
 		}
 	}
@@ -271,12 +314,13 @@ func (ex *Exec) heapByKey(st *State, k string) *Term {
 		panic("heapByKey: unknown sort for " + k)
 	}
 	var t *Term
-	for i := len(st.dflt) - 1; i >= 0; i-- {
-		c := ex.tb.Const(fmt.Sprintf("H%d$%s", st.dflt[i].epoch, k), s)
+	dl := st.dflt[heapClass(k)]
+	for i := len(dl) - 1; i >= 0; i-- {
+		c := ex.tb.Const(fmt.Sprintf("H%d$%s", dl[i].epoch, k), s)
 		if t == nil {
 			t = c
 		} else {
-			t = ex.tb.Ite(st.dflt[i].cond, c, t)
+			t = ex.tb.Ite(dl[i].cond, c, t)
 		}
 	}
 	st.heap[k] = t
